@@ -3,6 +3,11 @@
 # Rebuilds the harness (and with it /repo's current working tree, hooks on) and runs it.
 cd "$(dirname "$0")" || exit 2
 export CARGO_NET_OFFLINE=true
+if [ "$1" = "miri" ]; then
+    # the simulator's own primitives under Miri (scoped threads - the crate's one unsafe block -,
+    # channels incl. rendezvous, locks, a panicking task, a deadlock torn down)
+    MIRIFLAGS="-Zmiri-disable-isolation" CARGO_TARGET_DIR=/verif/target/miri exec cargo +nightly miri run -p dstsim --example miri_smoke --offline
+fi
 if ! cargo build --release -p harness -p ldpc-toolbox --offline -q 2>/verif/target/build.log; then
     # first attempt may race with target dir creation
     mkdir -p /verif/target
